@@ -286,13 +286,15 @@ Proof. exact rotation_within_1. Qed.
     proper rotation equal to roll * pitch * yaw; rotation composes associatively; x @ Angle = x @ Matrix.from_angle(Angle);
     every row of the dispatch table denotes the specification product with fresh results / untouched operands, @= on a mutable
     receiver returns the receiver holding the product and on a frozen receiver a new object, the table is complete, every
-    in-place operator method belongs to mutable classes only and returns the receiver it stored into; Matrix -> Angle ->
+    in-place operator method belongs to mutable classes only and returns the receiver it stored into; the in-place rotation
+    methods leave the pure operator form in the receiver; Matrix -> Angle ->
     Matrix is exact outside the gimbal band and within 2 * horizontal length inside; inverse() returns transpose() on every
-    rotation.  Hypotheses: atan2 by its specification and the four acceptance tests of the objects read from math.py;
-    Props/C04Today.v proves the four tests for today's generated objects. *)
-Theorem c04_property : forall atan2 tbl prog census,
+    rotation.  Hypotheses: atan2 by its specification and the five acceptance tests of the objects read from math.py;
+    Props/C04Today.v proves the five tests for today's generated objects. *)
+Theorem c04_property : forall atan2 tbl prog census methods,
   atan2_spec atan2 -> table_ok tbl = true -> gj_prog_ok prog = true -> gj_total_ok prog = true -> census_ok census = true ->
-  c04_statement atan2 tbl prog census.
+  methods_ok methods = true ->
+  c04_statement atan2 tbl prog census methods.
 Proof. exact c04_whole_property. Qed.
 
 (** Non-vacuity of the Gauss-Jordan theorems: a program equal to today's generated one is accepted and inverse() returns on
